@@ -287,6 +287,8 @@ type scenario struct {
 	custBefore    interface{}
 	// the fair environment leaves observedGeneration one behind this round
 	lag bool
+	// the fair environment makes the first child unhealthy this round (0 = no; 1-3 = how observedGeneration is reported)
+	sick int
 }
 
 func ownerRef(parent map[string]interface{}, controller bool) vs.M {
@@ -517,7 +519,16 @@ func buildScenario(r *vs.Rand, cfg scfg) *scenario {
 							og = gen - 1
 						}
 						o["metadata"].(vs.M)["generation"] = gen
-						o["status"] = vs.M{"ready": true, "observedGeneration": og, "conditions": []interface{}{vs.M{"type": "Ready", "status": r.Pick([]string{"True", "True", "False"})}}}
+						st := vs.M{"ready": true, "observedGeneration": og, "conditions": []interface{}{vs.M{"type": "Ready", "status": r.Pick([]string{"True", "True", "False"})}}}
+						if r.Chance(30) {
+							// a child controller that does not report observedGeneration at all (or reports 0)
+							if r.Bool() {
+								delete(st, "observedGeneration")
+							} else {
+								st["observedGeneration"] = int64(0)
+							}
+						}
+						o["status"] = st
 					}
 					w.sim.Put(c.group(), c.Resource, o)
 				case 3: // owned, stale image
